@@ -1,6 +1,7 @@
 """C30 — world-file updates record exactly the requested entries."""
 import ast
 
+from ..core import generic as G
 from ..core import astutil as A
 from ..core import match as M
 from ..core import atomic
@@ -120,6 +121,11 @@ def run(ctx):
         m = P.func(MOD, f"FileList.{name}")
         ctx.check("R4", m, M.has(m.node, op.replace("atom_inst", m.params()[1])) and len(list(A.calls(m.node))) == 1, f"set-{name}", f"FileList.{name} touches only the given atom (other entries intact)")
     ctx.floor("R4", 4)
+
+    # ---- R5 flush always publishes the current set ----------------------------------------------------------------------
+    G.always_reaches(ctx, "R5", MOD, "FileList.flush", lambda c: isinstance(c.func, ast.Attribute) and c.func.attr == "close" and isinstance(c.func.value, ast.Name),
+                     "the publishing close() of the atomic write handle", "flush-always-writes")
+    ctx.floor("R5", 2)
 
 
 def g_ast(node):
